@@ -8,7 +8,7 @@ import numpy as np
 from .. import contracts, gen, ref
 
 DECIDING = ["O1:tiny-entries", "contract:permute_systems", "O2:product-form", "O3:inverse-undoes", "O4:row-only=P.X", "contract:swap",
-            "contract:permutation_operator", "O5:swap_operator", "O6:sparse=dense", "O1:omitted-dim", "H1:repeat-call", "O1:many-subsystems"]
+            "contract:permutation_operator", "O5:swap_operator", "O6:sparse=dense", "O1:omitted-dim", "H1:repeat-call", "O1:many-subsystems", "O1:large"]
 RULE = ("cases = every permutation of n<=4 subsystems (random ones for n=5,6) x random independent row/column local "
         "dimensions in 1..4 x flags x dtype x memory layout x dim calling form, entries are unique ids; a signature is "
         "(monitor, kind, n, flags, rectangular?) and is non-trivial when the permutation is not the identity; plus 9..13 subsystems (most of local "
@@ -51,6 +51,8 @@ def cases(tier):
         out.append(("many", r))
     for r in range(48 if tier == "quick" else 6000):
         out.append(("tiny", r))
+    for r in range(24 if tier == "quick" else 1500):
+        out.append(("large", r))
     if tier == "thorough":
         out.append(("suite", 0))
     return out
@@ -166,6 +168,71 @@ def _run_many(ctx, spec, rng):
         ctx.check("O1:many-subsystems", np.shape(res) == want.shape and np.array_equal(res, want), sig=("swap", n, d[i] != d[j]), nt=d[i] != d[j],
                   mech="swap:many-subsystems", detail={"d": d, "sys": [i + 1, j + 1]})
     ctx.sample("O1:many-subsystems", {"dims": d, "perm": perm})
+
+
+def _large_dims(rng, lo, hi, n):
+    """n non-uniform local dimensions (2..17) whose product lies in [lo, hi]."""
+    while True:
+        d = [int(v) for v in rng.integers(2, 18, size=n)]
+        if lo <= int(np.prod(d)) <= hi and len(set(d)) > 1:
+            return d
+
+
+def _run_large(ctx, spec, rng):
+    """Sizes beyond every plausible size threshold inside the library (more than 1024 entries per side, more than 4096 entries in all, operators
+    larger than 64 x 64), with non-uniform local dimensions and non-involutive permutations: an implementation that switches to another
+    algorithm for large inputs is only exercised here.  Unique-id entries, exact comparison with the tensor-axis model."""
+    from toqito.perms import permutation_operator, permute_systems, swap
+
+    r = spec[1]
+    n = 3 if r % 2 else 4
+    kind = ["vec", "square", "rect", "vec-col"][r % 4]
+    perm = [int(v) for v in rng.permutation(n)]
+    while perm == sorted(perm) or [perm[i] for i in perm] == list(range(n)):
+        perm = [int(v) for v in rng.permutation(n)]  # neither the identity nor an involution
+    inv = bool((r // 4) % 2)
+    dt = "ifc"[int(rng.integers(0, 3))]
+    if kind.startswith("vec"):
+        d = _large_dims(rng, 1025, 6000, n)
+        x = gen.unique_ids((int(np.prod(d)),), dt)
+        arg = x.reshape(-1, 1) if kind == "vec-col" else x
+        res = ctx.call(permute_systems, arg, list(perm), list(d), False, inv)
+        if res is not ctx_failed():
+            want = ref.permute_vec(x, perm, d, inv)
+            ctx.check("O1:large", np.array_equal(np.asarray(res).reshape(-1), want.reshape(-1)), sig=("vec", n, inv, dt, kind), nt=True, mech="permute_systems:large-vector",
+                      detail={"d": d, "perm": perm, "inv": inv})
+        if r % 8 < 4 and int(np.prod(d)) <= 1600:
+            p_op = ctx.call(permutation_operator, list(d), list(perm), inv)
+            if p_op is not ctx_failed():
+                p_op = p_op.toarray() if hasattr(p_op, "toarray") else np.asarray(p_op)
+                want = ref.permute_vec(x, perm, d, inv)
+                ctx.check("O4:permutation-operator-action", np.array_equal((p_op @ x.astype(complex)).reshape(-1), want.astype(complex).reshape(-1)), sig=("large", n, inv), nt=True,
+                          mech="permutation_operator:large", detail={"d": d, "perm": perm, "inv": inv})
+    else:
+        dr = _large_dims(rng, 65, 160, n)
+        dc = list(dr) if kind == "square" else [int(v) for v in rng.integers(1, 4, size=n)]
+        if kind == "rect" and int(np.prod(dc)) < 2:
+            dc[0] = 2
+        if kind == "rect" and r % 8 >= 4:
+            dr, dc = dc, dr  # the long side is the column side
+        x = gen.unique_ids((int(np.prod(dr)), int(np.prod(dc))), dt)
+        row_only = bool((r // 8) % 2) and kind == "square"
+        dim = list(dr) if kind == "square" else [list(dr), list(dc)]
+        res = ctx.call(permute_systems, x, list(perm), dim, row_only, inv)
+        if res is not ctx_failed():
+            want = ref.permute(x, perm, dr, dc, inv, row_only)
+            ctx.check("O1:large", np.shape(res) == want.shape and np.array_equal(res, want), sig=("mat", kind, n, inv, row_only, dt), nt=True, mech="permute_systems:large-operator",
+                      detail={"dr": dr, "dc": dc, "perm": perm, "inv": inv, "row_only": row_only})
+        if kind == "square":
+            i, j = sorted(int(v) for v in rng.permutation(n)[:2])
+            res = ctx.call(swap, x, [i + 1, j + 1], list(dr))
+            if res is not ctx_failed():
+                p2 = list(range(n))
+                p2[i], p2[j] = p2[j], p2[i]
+                want = ref.permute(x, p2, dr, dr)
+                ctx.check("O5:swap=transposition", np.shape(res) == want.shape and np.array_equal(res, want), sig=("large", n, dr[i] != dr[j]), nt=dr[i] != dr[j], mech="swap:large-operator",
+                          detail={"d": dr, "sys": [i + 1, j + 1]})
+    ctx.sample("O1:large", {"kind": kind, "perm": perm, "inv": inv})
 
 
 def _run_mat(ctx, spec, rng):
